@@ -504,6 +504,88 @@ def erase(text):
 
 # ----------------------------------------------------------------------------------------------------------------------
 
+# ---- recursive models whose optional fields the loader cannot default by itself (TypedDict NotRequired keys, attrs
+# Factory(takes_self=True)): such fields travel through **kwargs of the constructor call, one mapping per call
+import attrs as _attrs  # noqa: E402
+from typing import List as _List, NotRequired as _NotRequired, TypedDict as _TypedDict  # noqa: E402
+
+TREE_CALLS = []
+
+
+class TDNode(_TypedDict):
+    name: str
+    kids: _List["TDNode"]
+    tag: _NotRequired[str]
+    weight: _NotRequired[int]
+
+
+@_attrs.define
+class ATree:
+    name: str
+    kids: _List["ATree"] = _attrs.Factory(list)
+    label: str = _attrs.Factory(lambda self: "label-of-" + self.name, takes_self=True)
+    size: int = _attrs.Factory(lambda self: len(self.kids), takes_self=True)
+
+    def __attrs_post_init__(self):
+        TREE_CALLS.append((self.name, self.label, self.size))
+
+
+def reentrant_optional_fields(rep, r, tier):
+    """every level of a recursive model is built by its own constructor call with exactly the fields present at THAT level:
+    random trees (depth <= 4) in which each node supplies a random subset of the optional fields; expected = the tree
+    built by hand with the real constructors"""
+    from adaptix import DebugTrail, Retort
+
+    def gen(depth, path="r"):
+        node = {"name": path, "kids": [gen(depth - 1, f"{path}{i}") for i in range(r.choice([0, 1, 2]) if depth > 0 else 0)]}
+        if r.random() < 0.5:
+            node["tag"] = "tag-" + path
+        if r.random() < 0.4:
+            node["weight"] = len(path)
+        return node
+
+    def as_attrs_input(node):
+        d = {"name": node["name"], "kids": [as_attrs_input(k) for k in node["kids"]]}
+        if "tag" in node:
+            d["label"] = node["tag"]
+        if "weight" in node:
+            d["size"] = node["weight"]
+        return d
+
+    def build_attrs(d):
+        kw = {k: v for k, v in d.items() if k in ("label", "size")}
+        return ATree(name=d["name"], kids=[build_attrs(k) for k in d["kids"]], **kw)
+
+    n = 0
+    reported = set()
+    for mode in ("DISABLE", "FIRST", "ALL"):
+        rt = Retort(debug_trail=getattr(DebugTrail, mode))
+        for _ in range(12 if tier == "quick" else 120):
+            tree = gen(r.choice([2, 3, 3, 4]))
+            n += 2
+            got = rt.load(tree, TDNode)
+            if got != tree and "td" not in reported:
+                reported.add("td")
+                rep.violation("reentrant:typeddict", "property-violated",
+                              {"what": "a recursive TypedDict with NotRequired keys: a node received keys that are not in its own input "
+                                       "(or lost some)", "mode": mode, "input": repr(tree)[:600], "got": repr(got)[:600]})
+            ain = as_attrs_input(tree)
+            del TREE_CALLS[:]
+            want = build_attrs(ain)
+            want_calls = sorted(TREE_CALLS)
+            del TREE_CALLS[:]
+            got = rt.load(ain, ATree)
+            got_calls = sorted(TREE_CALLS)
+            if (got != want or got_calls != want_calls) and "attrs" not in reported:
+                reported.add("attrs")
+                rep.violation("reentrant:attrs-takes-self", "property-violated",
+                              {"what": "a recursive attrs model with Factory(takes_self=True) defaults: the loaded tree differs from the "
+                                       "tree built with the constructor from the same per-node fields", "mode": mode,
+                               "input": repr(ain)[:600], "got": repr(got)[:600], "expected": repr(want)[:600],
+                               "post_init_calls_got": repr(got_calls)[:300], "post_init_calls_expected": repr(want_calls)[:300]})
+    return n
+
+
 def run(rep, tier, seed):
     from adaptix import DebugTrail, Retort, name_mapping
     from adaptix._internal.code_tools.utils import get_literal_expr
@@ -587,6 +669,7 @@ def run(rep, tier, seed):
                     direct_oracle(rep, retort, cls, names, flds, data, text, obj, info)
                 if len(samples) < 3 and stats["loads"] % 97 == 0:
                     samples.append(info)
+    stats["reentrant_loads"] = reentrant_optional_fields(rep, r, tier)
     ev2 = CoqEval(PID + "b", "From AV Require Import Model.Ctor Model.CtorShow.", "(fun c => show_load (fst c) (snd c))", shard=150)
     for idx, got in ev2.compare(ccases):
         rep.violation(f"call-model:{meta[idx]['model_kind']}:{classify_call(meta[idx], got)}", "model-disagrees",
@@ -594,7 +677,7 @@ def run(rep, tier, seed):
     for k, err in ev2.errors:
         rep.violation("coq-eval-error:call", "harness-error", {"what": err[-1500:]}, no_input=True)
     rep.cov.update({
-        "evaluations": stats["literal_cases"] + stats["loads"],
+        "evaluations": stats["literal_cases"] + stats["loads"] + stats["reentrant_loads"],
         "distinct_nontrivial": stats["renderable"] + stats["loads"] - stats["missing_required"],
         "rule": "default values: random trees of depth <= 3 over int / bool / None / Ellipsis / NotImplemented / floats (halves, "
                 "-0.0, nan, inf) / ASCII str and bytes with quotes, backslashes, control characters / Decimal, Fraction, complex, "
